@@ -16,8 +16,9 @@ RULE = ("case = 1-3 Ethereum txs of a fresh signer (fund 4e5..3e15 unibi), each 
         "base fee, non-multiples of 10^12, huge; gas limit below/at/above intrinsic, ample, block limit, over it; value 0, "
         "sub-unibi, whole, with remainder, ~whole balance; target EOA, contract X (keep, revert, loop, forward w wei, "
         "selfdestruct to B / to self, forward+revert, FunToken precompile bankMsgSend, the same + revert), contract Y "
-        "(frame that reverts after a precompile call), contract creation (ok / reverting init). Measured around DeliverTx: "
-        "bank supply(unibi), balances of 9 scenario accounts, GasUsed, VmError. non-trivial = passed the ante handler AND "
+        "(frame that reverts after a precompile call), driver contract D calling X 2-5 times in one tx (self-destructs to B/R/D/self "
+        "interleaved with payments into X and transfers out), contract creation (ok / reverting init). Measured around DeliverTx: "
+        "bank supply(unibi), balances of 10 scenario accounts, GasUsed, VmError. non-trivial = passed the ante handler AND "
         "(effective price not a multiple of 10^12 or value with sub-unibi remainder or target has code or failed after ante); "
         "distinct = distinct input")
 ASSUMPTIONS = [
@@ -47,6 +48,34 @@ def _script(tx, d, o):
     tgt, mode = tx["target"], tx["mode"]
     if tgt in ("eoa", "create"):
         return []
+    if tgt == "d":
+        # D calls X once per step; simulate wei balances to know which inner calls can pay their value
+        ben = {"B": 4, "R": 2, "D": 9, "X": 3}
+        wei = {i: before[i] * K for i in range(len(before))}
+        wei[9] += vn * K
+        ops, dead = [], False
+        for st in tx.get("steps") or []:
+            val, w, b, mode = int(st["val"]), int(st["w"]), ben[st["benef"]], st["mode"]
+            if val > wei[9]:
+                continue                      # CALL refused: X does not run
+            if mode in (1, 6):
+                continue                      # X reverts: the value comes back
+            if val > 0:
+                ops.append("OTransfer 9 3 %s" % _z(val)); wei[9] -= val; wei[3] += val
+            if mode == 3 and w <= wei[3]:
+                if w > 0:
+                    ops.append("OTransfer 3 %d %s" % (b, _z(w)))
+                wei[3] -= w; wei[b] += w
+            elif mode in (4, 5):
+                b2 = 3 if mode == 5 else b
+                ops.append("OSuicide 3 %d" % b2)
+                if b2 != 3:
+                    wei[b2] += wei[3]
+                wei[3] = 0
+                dead = True
+        if dead and wei[3] > 0:
+            ops.append("OSuicide 3 3")       # what a destructed account still holds at the end of the tx is deleted with it
+        return ops
     if tgt == "y":
         return ["OTransfer 6 7 %s" % _z(5 * K)] if before[6] >= 5 else []
     w = int(tx["w"] or "0")
@@ -112,6 +141,9 @@ def classify(rec):
         ks.append("type=%d" % tx["ty"])
         ks.append("gas=" + tx["gasmode"])
         ks.append("target=" + tx["target"] + ("/mode%d" % tx["mode"] if tx["target"] in ("x", "create") else ""))
+        if tx["target"] == "d":
+            kills = sum(1 for st in tx.get("steps") or [] if st["mode"] in (4, 5))
+            ks.append("d:selfdestructs_in_one_tx=%d" % kills)
         p = _eff_price(tx, int(d["basefee"]))
         ks.append("price:" + ("base" if p == int(d["basefee"]) else ("multiple" if p % K == 0 else "odd")))
         nominal = int(tx["cap"]) if tx["ty"] == 2 else int(tx["gp"])
@@ -135,7 +167,7 @@ def signature(rec):
 
 
 def input_size(inp):
-    return len(inp["txs"]) * 100 + sum(len(tx["gp"]) + len(tx["value"]) + len(tx["w"]) for tx in inp["txs"])
+    return len(inp["txs"]) * 100 + sum(len(tx["gp"]) + len(tx["value"]) + len(tx["w"]) + 50 * len(tx.get("steps") or []) for tx in inp["txs"])
 
 
 def shrink_candidates(inp):
@@ -145,6 +177,10 @@ def shrink_candidates(inp):
         for i in range(len(txs)):
             out.append(dict(inp, txs=txs[:i] + txs[i + 1:]))
     for i, tx in enumerate(txs):
+        st = tx.get("steps") or []
+        if len(st) > 1:
+            for j in range(len(st)):
+                out.append(dict(inp, txs=txs[:i] + [dict(tx, steps=st[:j] + st[j + 1:])] + txs[i + 1:]))
         for k, v in (("gp", "1000000000000"), ("value", "0"), ("w", "0"), ("ty", 0), ("gasmode", "ample")):
             if tx.get(k) != v:
                 out.append(dict(inp, txs=txs[:i] + [dict(tx, **{k: v})] + txs[i + 1:]))
